@@ -36,34 +36,40 @@ def End.recv (e : End) (cap : Nat) : Except Fail (End × Option (List Nat)) :=
     | .ok (s, m) => .ok ({ e with s := s }, some (m.getD []))
   else .ok (e, none)
 
-/-- `BtpInner::process_outgoing`: handshake first, then the queued SDU, then a due acknowledgement.
-(The queued SDU always carries the peer's address; it is sendable iff the session is established.) -/
+/-- the SDU part of `BtpInner::process_outgoing`. (The queued SDU always carries the peer's
+address; it is sendable iff the session is established.) -/
+def End.dataStep (e : End) (now : Nat) : Except Fail (End × List Nat) :=
+  if !e.sdu.isEmpty && e.s.established then
+    match e.s.prepTxData e.sdu e.off now with
+    | .error f => .error f
+    | .ok (s2, seg, off2) =>
+      if seg.length > 0 then
+        if off2 = e.sdu.length then .ok ({ e with s := s2, sdu := [], off := 0 }, seg)
+        else .ok ({ e with s := s2, off := off2 }, seg)
+      else .ok ({ e with s := s2 }, [])
+  else .ok (e, [])
+
+/-- the stand-alone acknowledgement part of `BtpInner::process_outgoing`
+(fixed tree: no `assert!(len > 0)`, the ACK waits while the send window is exhausted) -/
+def End.ackStep (e : End) (now : Nat) : Except Fail (End × List Nat) :=
+  if e.s.isAckDue now ackTimeoutSecs then
+    match e.s.prepTxData [] 0 now with
+    | .error f => .error f
+    | .ok (s3, ackSeg, _) => .ok ({ e with s := s3 }, ackSeg)
+  else .ok (e, [])
+
+/-- `BtpInner::process_outgoing`: handshake first, then the queued SDU, then a due acknowledgement. -/
 def End.processOutgoing (e : End) (now : Nat) : Except Fail (End × List Nat) :=
   match e.s.prepTxHandshake e.gattMtu now with
   | .error f => .error f
   | .ok (s1, hb) =>
     if hb.length > 0 then .ok ({ e with s := s1 }, hb)
     else
-      let e1 := { e with s := s1 }
-      let dataStep : Except Fail (End × List Nat) :=
-        if !e1.sdu.isEmpty && e1.s.established then
-          match e1.s.prepTxData e1.sdu e1.off now with
-          | .error f => .error f
-          | .ok (s2, seg, off2) =>
-            if seg.length > 0 then
-              if off2 = e1.sdu.length then .ok ({ e1 with s := s2, sdu := [], off := 0 }, seg)
-              else .ok ({ e1 with s := s2, off := off2 }, seg)
-            else .ok ({ e1 with s := s2 }, [])
-        else .ok (e1, [])
-      match dataStep with
+      match End.dataStep { e with s := s1 } now with
       | .error f => .error f
       | .ok (e2, seg) =>
         if seg.length > 0 then .ok (e2, seg)
-        else if e2.s.isAckDue now ackTimeoutSecs then
-          match e2.s.prepTxData [] 0 now with
-          | .error f => .error f
-          | .ok (s3, ackSeg, _) => .ok ({ e2 with s := s3 }, ackSeg)   -- fix: no `assert!(len > 0)`
-        else .ok (e2, [])
+        else e2.ackStep now
 
 def End.processIncoming (e : End) (data : List Nat) (now : Nat) : Except Fail End :=
   match e.s.processRx e.gattMtu data now with
